@@ -160,6 +160,10 @@ func (gn *Gen) amount(n *simnode.Node, from types.Address, z types.ZenonTokenSta
 	bal := gn.balance(n, from, z)
 	switch t.Choose(10) {
 	case 0:
+		if t.Choose(3) == 0 {
+			// a negative amount (only in-process callers and JSON can carry the sign)
+			return big.NewInt(-int64(1 + t.Choose(1000000)))
+		}
 		return big.NewInt(0)
 	case 1:
 		return big.NewInt(1)
